@@ -455,6 +455,9 @@ func (p *Pending) Wait() (Reply, error) {
 	start := time.Now()
 	tick := time.NewTicker(500 * time.Millisecond)
 	defer tick.Stop()
+	// the budget runs from the moment the client starts waiting for this particular answer: with
+	// pipelined requests the CPU spent on earlier requests must not be charged to this one
+	p.cpu0 = p.s.cpuSeconds()
 	lastCPU := p.cpu0
 	lastProgress := time.Now()
 	for {
@@ -749,6 +752,10 @@ func (s *Server) Crash() CrashInfo {
 func (c CrashInfo) Sig() string {
 	d := c.Detail
 	// strip addresses / numbers that vary
+	d = regexp.MustCompile("`[^`]*`").ReplaceAllString(d, "`?`")
+	if i := strings.Index(d, "regexp: Compile("); i >= 0 {
+		d = d[:i] + "regexp: Compile(?)"
+	}
 	d = regexp.MustCompile(`0x[0-9a-f]+`).ReplaceAllString(d, "0x?")
 	d = regexp.MustCompile(`\[[-0-9:]+\]`).ReplaceAllString(d, "[?]")
 	d = regexp.MustCompile(`\d+`).ReplaceAllString(d, "N")
